@@ -1320,6 +1320,87 @@ def cpp_refs(repo, protos, cconst):
 
 
 # =====================================================================================================
+# C++: declared parameter and result types of every wrapper of cplusplus/xraylib++.h
+
+def cpp_type(q, role, where):
+    """C type (abi, pointee) that a C++ type of the header stands for: `std::string` / `const char *` <-> `const char *`, `std::complex<double>` <-> xrlComplex,
+    `Struct &` and a returned `Struct` <-> `Crystal_Struct *`, the value classes <-> pointers to the C structs they are built from, a returned
+    `std::vector<std::string>` <-> `char **`.  Anything else is a broken tie (the map must be extended by hand, never guessed)."""
+    t = re.sub(r'\bconst\b', '', q).strip()
+    t = re.sub(r'\s+', ' ', t)
+    t = re.sub(r'\bxrlpp::(Crystal::)?', '', t)
+    t = re.sub(r'\bstd::(__cxx11::)?basic_string<char(, std::char_traits<char>, std::allocator<char> ?)?>', 'std::string', t)
+    t = re.sub(r'\s*&&?$', '', t).strip()
+    simple = {'int': ('int', '?'), 'double': ('double', '?'), 'void': ('void', '?'), 'float': ('float', '?'),
+              'std::string': ('ptr', 'char'), 'char *': ('ptr', 'char'), 'std::complex<double>': ('complex', '?'), 'xrlComplex': ('complex', '?'),
+              'Struct': ('ptr', 'Crystal_Struct'), 'Crystal_Struct *': ('ptr', 'Crystal_Struct'), 'double *': ('ptr', 'double'), 'int *': ('ptr', 'int'),
+              'compoundData': ('ptr', 'compoundData'), 'compoundDataNIST': ('ptr', 'compoundDataNIST'), 'radioNuclideData': ('ptr', 'radioNuclideData'),
+              'std::vector<std::string>': ('ptr', 'char*'), 'std::vector<std::string, std::allocator<std::string>>': ('ptr', 'char*')}
+    if t in simple: return simple[t]
+    raise TieError('cplusplus/xraylib++.h', where[1], q, 'C++ %s type of the wrapper %s is not in the C++ -> C type map' % (role, where[0]))
+
+
+def cpp_wrapper_protos(repo, bdir, aux, cprotos):
+    """-> (list of Proto keyed by the wrapped C function, info).  The wrapper table is C18's (tools/extract_cpp.py evaluates xraylib++.h with clang and
+    records, for every function / method / constructor / destructor of namespace xrlpp and for every instantiation of a wrapper template, the C function it
+    forwards to); here the DECLARED parameter and result types of each of them are read from the same AST and mapped to C types.  What a wrapper shows
+    its caller is compared with the visible signature of the C function (the error slot, the `int *` count out-parameter and the `Crystal_Array *`
+    catalogue argument are supplied by the wrapper: dropped on the C side, as for the Pascal unit):
+      * a free function / a template instantiation: its parameters, its result;
+      * a method of `Crystal::Struct` that passes the member `cs`: `Crystal_Struct *` first, then its parameters;
+      * a free function that forwards to such a method (`Crystal::Bragg_angle(Struct &cs, …)` -> `cs.Bragg_angle(…)`): its own parameters and result,
+        against the C function the METHOD wraps;
+      * the copy constructor (`Crystal_MakeCopy`): its parameter, result `Crystal_Struct *`; the destructor (`Crystal_Free`): `Crystal_Struct *`, void.
+    Uninstantiated template patterns (`const T... args`) carry no types of their own and are skipped; every template must have an instantiation row."""
+    import extract_cpp as XC
+    class Typed(XC.Extractor):
+        def visit_fn(self, d, prefix, kind):
+            n0 = len(self.wrappers)
+            XC.Extractor.visit_fn(self, d, prefix, kind)
+            params = [x for x in d.get('inner', []) if x.get('kind') == 'ParmVarDecl']
+            qt = d.get('type', {}).get('qualType', '')
+            depth = 0; cut = len(qt)
+            for i, ch in enumerate(qt):
+                if ch == '<': depth += 1
+                elif ch == '>': depth -= 1
+                elif ch == '(' and depth == 0: cut = i; break
+            for w in self.wrappers[n0:]:
+                w['raw_params'] = [(x.get('name', ''), x['type'].get('qualType', '')) for x in params]
+                w['raw_ret'] = qt[:cut].strip()
+    try:
+        ex = Typed(repo, bdir, aux).run()
+    except XC.ExtractError as e:
+        raise TieError('cplusplus/xraylib++.h', 0, str(e)[:300], 'the C++ header could not be evaluated by clang (tools/extract_cpp.py)')
+    if ex.unclassified: raise TieError('cplusplus/xraylib++.h', 0, '; '.join(ex.unclassified)[:300], 'wrapper(s) of the C++ header not classified by tools/extract_cpp.py')
+    rel = 'cplusplus/xraylib++.h'
+    methods = {(w['scope'], w['base']): w for w in ex.wrappers if w['kind'] == 'method'}
+    out = []; skipped = []; templates = set(); instantiated = set()
+    for w in ex.wrappers:
+        k = w['kind']; where = (w['name'], w['line'])
+        if k == 'pattern': templates.add(w['base']); continue
+        if k == 'inst': instantiated.add(w['base'])
+        callee = w['callee']
+        if k == 'delegate':
+            m = methods.get((w['scope'] + 'Struct::', callee))
+            if m is None: raise TieError(rel, w['line'], w['name'], 'free function forwards to the method %s, which wraps no C function' % callee)
+            callee = m['callee']
+        if not callee or callee not in cprotos or callee in ('xrl_malloc', 'xrl_strdup'):
+            skipped.append(dict(name=w['name'], kind=k, line=w['line'], why='wraps no function of the C headers')); continue
+        args = [cpp_type(t, 'parameter', where) for _, t in w['raw_params']]
+        if k in ('method', 'dtor') and w['args'] and w['args'][0] == ('thisCs',): args = [('ptr', 'Crystal_Struct')] + args
+        if k == 'ctor': ret = ('ptr', 'Crystal_Struct') if w['scope'].endswith('Struct::') else cpp_type(w['scope'].rstrip(':').rsplit('::', 1)[-1], 'result', where)
+        else: ret = cpp_type(w['raw_ret'], 'result', where)
+        text = '%s %s%s(%s)%s' % (w['raw_ret'] if k not in ('ctor', 'dtor') else '', 'xrlpp::' + w['scope'], w['base'], ', '.join(('%s %s' % (t, n)).strip() for n, t in w['raw_params']),
+                                 '  [%s]' % {'inst': 'instantiation of the wrapper template', 'method': 'method: the member cs is passed first', 'delegate': 'forwards to the method of the same name',
+                                             'ctor': 'constructor', 'dtor': 'destructor: the member cs is passed', 'plain': 'free function'}[k])
+        out.append(Proto('xrlpp::' + w['scope'] + w['base'] + w['sig'], ret, args, [n for n, _ in w['raw_params']], text.strip(), rel, w['line'], cname=callee))
+    never = sorted(templates - instantiated)
+    if never: raise TieError(rel, 0, ' '.join(never)[:300], 'wrapper template(s) without an instantiation row: their C prototype has arguments the template cannot take')
+    return out, dict(skipped=skipped, kinds={k: sum(1 for w in ex.wrappers if w['kind'] == k) for k in sorted({w['kind'] for w in ex.wrappers})},
+                     templates=len(templates), wrapped_c_functions=len({p.cname for p in out}))
+
+
+# =====================================================================================================
 # versions
 
 def versions(repo):
